@@ -290,6 +290,36 @@ PROPS = {
                  "statement / ST 2042-1).",
         ),
     ),
+    "C04": dict(
+        modules=["c04_dc_prediction", "c12_quantization", "c11_lifting"],
+        only_units=["apply_dc_prediction", "dc_prediction", "dc_roundtrip", "Q2_index0_lossless",
+                    "oned_roundtrip_filter_0", "oned_roundtrip_filter_1", "oned_roundtrip_filter_2", "oned_roundtrip_filter_3", "oned_roundtrip_filter_4",
+                    "oned_roundtrip_filter_5", "oned_roundtrip_filter_6"],
+        level="proof",
+        assumptions=[
+            "PROVED (bands of any size, any integer content; unbounded): the decoder's dc_prediction undoes the encoder's apply_dc_prediction exactly - "
+            "apply_dc_prediction (reverse raster loops) is verified against new == old - pred(old) with pred the 13.4 prediction; dc_prediction (raster loops) against a "
+            "contract with a ghost parameter A0 ('if the band holds A0 - pred(A0) it ends up holding A0': the induction over raster order is its loop invariant); "
+            "lemma dc_roundtrip composes the two",
+            "PROVED (re-used units of C12 and C11, discharged again in this run): quantisation with index 0 is the identity (Q2_index0_lossless, all integers); for each of the "
+            "7 wavelet filters oned_synthesis(oned_analysis(A)) == A for every even length and integer content (oned_roundtrip_filter_0..6, over the live filter table)",
+            "BOUNDED (never counted as proved): everything that composes these steps into 'decode(encode(picture)) == picture' - the 2-D transform assembly and padding "
+            "(also bounded under C11), slicing and coefficient ordering (transform_and_slice_picture), slice packing and length fields in lossless mode, the serialiser and "
+            "the decoder's parsing: end-to-end round trips of the real encoder, serialiser and decoder over generated configurations and pictures (bounded/c04_lossless.py, "
+            "families L1-L4 lossless, Q1-Q2 lossy with every slice at qindex 0; counts in bounded_checks)",
+            "NOT covered: a change mirrored in code shared by encoder and decoder (lift functions, slice geometry, data tables) keeps the round trip exact - that is C11 / C13",
+        ],
+        manifest=dict(
+            category="proof",
+            technique="contract-based deductive verification of the invertible steps of the lossless path on the real functions (DC prediction pair with a ghost-parameter "
+                      "contract and raster-order loop invariants; index-0 quantisation; 1-D lifting round trips per filter; pyvc + z3); the composition end to end as a native "
+                      "bounded stand-in (real encoder -> serialiser -> decoder on generated configurations)",
+            text="Each invertible step of the lossless path is proved exact for all inputs on the real code: DC prediction (encoder) then DC prediction (decoder) is the "
+                 "identity on bands of any size; quantisation at index 0 is the identity; every wavelet filter's 1-D analysis is undone by its synthesis.",
+            note="That these steps are composed correctly (2-D assembly, padding, slicing, packing, serialisation, parsing) is only bounded-checked by end-to-end round trips "
+                 "over all 49 wavelet pairs, depth shapes, formats, slice grids, fragments and bit depths on small pictures.",
+        ),
+    ),
 }
 
 
